@@ -248,6 +248,19 @@ const prelude = `(set-option :produce-models true)
 // quantified hypotheses themselves stay in the query).
 func (c *Ctx) render(pc []string, goal string, cover bool, cands []string, lens []string, lite bool) string {
 	var b strings.Builder
+	// an implication goal is proved from its antecedent: the antecedent joins the hypotheses (so that
+	// its quantifiers are skolemised / instantiated like those of any other hypothesis)
+	for !cover {
+		if !strings.HasPrefix(goal, "(=> ") {
+			break
+		}
+		t, err := parseSx(goal)
+		if err != nil || t.head() != "=>" || len(t.list) != 3 {
+			break
+		}
+		pc = append(append([]string(nil), pc...), t.list[1].String())
+		goal = t.list[2].String()
+	}
 	b.WriteString(prelude)
 	b.WriteString(c.sorts.render())
 	for _, d := range c.decls {
@@ -410,7 +423,7 @@ func (sr *SortReg) render() string {
 	}
 	b.WriteString("(declare-datatypes (" + strings.Join(names, " ") + ") (" + strings.Join(bodies, "\n ") + "))\n")
 	// valref: the reference held by an interface value (0 when it holds no pointer)
-	body := "0"
+	body := "(ite ((_ is VOther) v) (vother.id v) 0)"
 	for _, k := range keys {
 		c := sr.valCtors[k]
 		if c.Sort != "Int" || c.GoT == nil {
